@@ -10,7 +10,7 @@ seq_num, data keys and values, and for every descriptor its data keys and the co
 from vlib import oracles, sweep
 from vlib.harness import Harness, register
 from vlib.relab import Det, Dev
-from vlib.symx import fork_int, goal, notrace, only_shard
+from vlib.symx import fork_range, goal, notrace, only_shard
 from harnesses.c01_documents import OUT, STUBS
 
 # (pre-op, stream, [devices read in order], inside-op, ending)
@@ -213,7 +213,7 @@ def make(P):
 
     def h(b1: int, b2: int, b3: int, b4: int) -> str:
         cat = _full() if P.get("full") else CATALOGUE
-        idx = [fork_int(b, 0, len(cat) - 1) for b in [b1, b2, b3, b4][:K]]
+        idx = [fork_range(b, 0, len(cat) - 1) for b in [b1, b2, b3, b4][:K]]
         only_shard(idx[0] + len(cat) * idx[1] if K > 1 else idx[0], P)
         prog = [cat[i] for i in idx]
         with notrace():
@@ -235,7 +235,7 @@ def _fns():
 SYM = ("program of K bundle descriptions, each a symbolic index into a catalogue (stream A/B; devices read incl. a duplicate read and a device whose key overlaps another's; "
        "checkpoint / configure / second create inside the bundle; save, drop or empty save; configure or checkpoint before the bundle)")
 for prop, name in (("C15", "c15_bundles"), ("C16", "c16_bundles")):
-    register(Harness(name, prop, make, {"quick": dict(K=3, shards=64, budget_s=300, per_path_s=30), "thorough": dict(K=4, shards=128, budget_s=3000, per_path_s=30)},
+    register(Harness(name, prop, make, {"quick": dict(K=3, shards=16, budget_s=300, per_path_s=30), "thorough": dict(K=4, shards=128, budget_s=3000, per_path_s=30)},
                      goals=["event", "rejection-expected", "reconfigured"], functions=_fns, mode="schedule", symbolic=SYM,
                      out_of_bound=OUT + "; more than K bundles; external assets in bundles; interruptions between bundles (C03/C05)", stubs=STUBS, require_exhaustive=True))
     register(Harness(name + "_full", prop, make, {"quick": dict(K=1, full=True, shards=16, budget_s=300, per_path_s=30), "thorough": dict(K=2, full=True, shards=128, budget_s=3000, per_path_s=30)},
